@@ -20,7 +20,7 @@ Section AMapLemmas.
   Proof.
     induction m as [|[k0 v] r IH]; intros; simpl; auto.
     destruct (N.eqb k k0) eqn:E; simpl.
-    - apply N.eqb_eq in E; subst. destruct (N.eqb k' k0) eqn:E'; auto.
+    - apply N.eqb_eq in E; subst. destruct (N.eqb k' k0) eqn:E'; auto. apply N.eqb_eq in E'. congruence.
     - destruct (N.eqb k' k0); auto.
   Qed.
 
@@ -175,14 +175,20 @@ Section ListLemmas.
     destruct (eqd a y); [exfalso; apply H; auto|]. f_equal. apply IH. tauto.
   Qed.
 
+  Lemma length_removelast_S : forall (r : list X), r <> [] -> S (length (removelast r)) = length r.
+  Proof.
+    intros. destruct r as [|z r']; [congruence|].
+    pose proof (app_removelast_last z H) as E. apply (f_equal (@length X)) in E.
+    rewrite app_length in E. simpl length at 3 in E. lia.
+  Qed.
+
   Lemma length_swap_remove : forall l a, In a l -> S (length (swap_remove eqd a l)) = length l.
   Proof.
-    induction l as [|y r IH]; intros; simpl in *; [tauto|].
-    destruct (eqd a y).
+    induction l as [|y r IH]; intros; [simpl in *; tauto|].
+    simpl swap_remove. destruct (eqd a y).
     - destruct r as [|z r']; auto.
-      simpl length at 1. f_equal.
-      assert (Hr : z :: r' <> []) by discriminate.
-      rewrite (app_removelast_last z Hr) at 2. rewrite app_length. simpl. lia.
+      change (length (last (z :: r') z :: removelast (z :: r'))) with (S (length (removelast (z :: r')))).
+      rewrite length_removelast_S by discriminate. reflexivity.
     - destruct H; [congruence|]. simpl. f_equal. auto.
   Qed.
 
@@ -362,17 +368,13 @@ Section Consistent.
   Qed.
 End Consistent.
 
-Lemma consistent_In : forall {A B} (eqA : forall x y : A, {x = y} + {x <> y}) (f : A -> option B) L a b,
+Lemma consistent_In : forall {A B} (eqA : forall x y : A, {x = y} + {x <> y})
+  (eqB : forall x y : B, {x = y} + {x <> y}) (f : A -> option B) L a b,
   consistent eqA f L -> In a (L b) -> f a = Some b.
 Proof.
   intros. destruct (H a b) as [_ H2].
   apply (count_occ_In eqA) in H0.
   destruct (f a) as [b'|] eqn:E.
-  - destruct (H a b') as [H3 _]. specialize (H3 eq_refl).
-    assert (Hdec : {b' = b} + {b' <> b}).
-    { destruct (Nat.eq_dec (count_occ eqA (L b) a) 0); [lia|].
-      (* decide by contradiction with H2 *)
-      right. intros ->. lia. }
-    destruct Hdec; [congruence|]. rewrite H2 in H0; [lia|congruence].
+  - destruct (eqB b' b); [congruence|]. rewrite H2 in H0; [lia | congruence].
   - rewrite H2 in H0; [lia | discriminate].
 Qed.
